@@ -20,7 +20,6 @@ use radix_engine_interface::blueprints::transaction_processor::InstructionOutput
 use radix_engine::vm::wasm::WasmRuntimeError;
 use radix_engine_interface::prelude::*;
 use radix_transactions::prelude::*;
-use sbor::basic_well_known_types::ANY_TYPE;
 use std::sync::OnceLock;
 use vf_core::{ensure, Check, Gen, Outcome, Part};
 use vf_world::{no_genesis, with_world, World};
@@ -184,8 +183,31 @@ fn definition() -> PackageDefinition {
     let functions: Vec<(&str, &str, bool)> = FUNCTIONS.iter().zip(exports.iter()).map(|(f, e)| (*f, e.as_str(), false)).collect();
     let mut d = PackageDefinition::new_functions_only_test_definition("Test", functions);
     let bp = d.blueprints.get_mut("Test").unwrap();
-    bp.schema.events = BlueprintEventSchemaInit { event_schema: indexmap!("Evnt".to_string() => TypeRef::Static(LocalTypeId::WellKnown(ANY_TYPE))) };
+    // one event: struct Evnt { data: Vec<u8> } (events must be named structs or enums)
+    let (type_id, schema) = generate_full_schema_from_single_type::<Evnt, ScryptoCustomSchema>();
+    bp.schema.schema = schema;
+    bp.schema.events = BlueprintEventSchemaInit { event_schema: indexmap!("Evnt".to_string() => TypeRef::Static(type_id)) };
     d
+}
+
+#[derive(ScryptoSbor, Debug, PartialEq, Eq)]
+struct Evnt {
+    data: Vec<u8>,
+}
+
+/// SBOR header of `Evnt { data }` for a payload of `total` bytes in all: 5c 21 01 20 07 LEB128(n).
+fn event_header(total: usize) -> Option<Vec<u8>> {
+    for hl in 6..=9 {
+        if total < hl {
+            return None;
+        }
+        let mut h = vec![0x5c, 0x21, 0x01];
+        h.extend_from_slice(&bytes_header(total - hl)[1..]);
+        if h.len() == hl {
+            return Some(h);
+        }
+    }
+    None
 }
 
 fn initial_memory(pages: u64) -> &'static Vec<u8> {
@@ -203,10 +225,14 @@ struct Packages(Vec<PackageAddress>);
 fn build(w: &mut World) {
     let mut v = vec![];
     for code in drivers() {
+        let t0 = std::time::Instant::now();
         let manifest = ManifestBuilder::new().lock_fee_from_faucet().publish_package_advanced(None, code.clone(), definition(), MetadataInit::default(), OwnerRole::None).build();
         let run = w.run(manifest, vec![]);
         assert!(run.is_success(), "publishing the C47 driver package failed: {}", run.outcome_string());
         v.push(run.commit().unwrap().new_package_addresses()[0]);
+        if std::env::var_os("VF_WASM_TIMING").is_some() {
+            eprintln!("publish of {} bytes: {} ms", code.len(), t0.elapsed().as_millis());
+        }
     }
     w.set_ext(Packages(v));
 }
@@ -266,6 +292,24 @@ impl Op {
             Op::Ret => "op:return slice",
         }
     }
+    fn ok_label(self) -> &'static str {
+        match self {
+            Op::LogMsg => "ok:sys_log(message)",
+            Op::LogLevel => "ok:sys_log(level)",
+            Op::Panic => "ok:sys_panic",
+            Op::EventName => "ok:actor_emit_event(name)",
+            Op::EventData => "ok:actor_emit_event(data)",
+            Op::Blake => "ok:blake2b_256_hash",
+            Op::Keccak => "ok:keccak256_hash",
+            Op::BcallArgs => "ok:blueprint_call(args)",
+            Op::BcallIdent => "ok:blueprint_call(ident)",
+            Op::WriteDigest => "ok:buffer_consume(digest,dst)",
+            Op::WriteEcho => "ok:buffer_consume(echo,dst)",
+            Op::WriteStale => "ok:buffer_consume(stale id)",
+            Op::WriteNeverIssued => "ok:buffer_consume(never issued id)",
+            Op::Ret => "ok:return slice",
+        }
+    }
     fn function(self) -> &'static str {
         match self {
             Op::LogMsg | Op::LogLevel => "log",
@@ -280,8 +324,13 @@ impl Op {
 }
 
 /// A (ptr, len) pair relative to a memory of `size` bytes, with its class.
-fn range(g: &mut Gen, size: u64, max_len: u64) -> (u32, u32, &'static str) {
+fn range(g: &mut Gen, size: u64, max_len: u64, prefer_len: Option<u64>) -> (u32, u32, &'static str) {
     let s = size as u32;
+    // ops whose window must have one exact length to be accepted use it two times out of three
+    let max_len = match prefer_len {
+        Some(n) if g.chance(2, 3) => return range_with_len(g, size, n),
+        _ => max_len,
+    };
     match g.weighted(&[5, 2, 2, 2, 2, 1, 1, 1, 1, 1, 1, 1]) {
         0 => {
             // well inside
@@ -319,6 +368,19 @@ fn range(g: &mut Gen, size: u64, max_len: u64) -> (u32, u32, &'static str) {
     }
 }
 
+fn range_with_len(g: &mut Gen, size: u64, n: u64) -> (u32, u32, &'static str) {
+    let s = size as u32;
+    let n32 = n as u32;
+    match g.weighted(&[4, 3, 3, 1, 1, 1]) {
+        0 => (g.below(size - n + 1) as u32, n32, "range:inside"),
+        1 => (s - n32, n32, "range:touches_last_byte"),
+        2 => (s - n32 + 1, n32, "range:crosses_end_by_one"),
+        3 => (s, n32, "range:starts_at_end"),
+        4 => (s - n32 - 1, n32, "range:ends_one_before_end"),
+        _ => (u32::MAX - g.below(n) as u32, n32, "range:sum_overflows_u32"),
+    }
+}
+
 fn in_range(ptr: u32, len: u32, size: u64) -> bool {
     ptr as u64 + len as u64 <= size
 }
@@ -345,6 +407,20 @@ fn bytes_header(n: usize) -> Vec<u8> {
         }
     }
     h
+}
+
+/// SBOR byte-array header for a value of `total` bytes in all (None when no length fits).
+fn bytes_header_for_total(total: usize) -> Option<Vec<u8>> {
+    for hl in 4..=8 {
+        if total < hl {
+            return None;
+        }
+        let h = bytes_header(total - hl);
+        if h.len() == hl {
+            return Some(h);
+        }
+    }
+    None
 }
 
 #[derive(Debug)]
@@ -410,10 +486,17 @@ fn case(g: &mut Gen) -> Outcome {
         1 => 600,
         _ => 70_000,
     };
-    let (ptr, len, class) = range(g, size, max_len);
-    g.label(class);
+    let prefer_len = match op {
+        Op::LogLevel | Op::EventName | Op::BcallIdent => Some(4),
+        _ => None,
+    };
+    let (ptr, len, class) = range(g, size, max_len, prefer_len);
+    let uses_range = !matches!(op, Op::WriteDigest | Op::WriteEcho | Op::WriteStale | Op::WriteNeverIssued);
+    if uses_range {
+        g.label(class);
+    }
     let ok = in_range(ptr, len, size);
-    g.set_nontrivial(matches!(class, "range:touches_last_byte" | "range:crosses_end_by_one" | "range:sum_overflows_u32" | "range:both_u32_max" | "range:len_u32_max" | "range:whole_memory" | "range:whole_memory_plus_one" | "range:empty_at_end" | "range:starts_at_end"));
+    g.set_nontrivial(uses_range && matches!(class, "range:touches_last_byte" | "range:crosses_end_by_one" | "range:sum_overflows_u32" | "range:both_u32_max" | "range:len_u32_max" | "range:whole_memory" | "range:whole_memory_plus_one" | "range:empty_at_end" | "range:starts_at_end"));
 
     // ---- plan the call (fields + pokes); the expectation is computed after the model is built ----
     let level_bytes = |l: u8| vec![0x5c, 0x22, l, 0x00];
@@ -448,23 +531,19 @@ fn case(g: &mut Gen) -> Outcome {
             if len == 4 && ok {
                 plan.poke(ptr, b"Evnt");
             }
-            let payload = bytes_header(8);
-            // data: header + 8 pattern bytes, planted in the scratch area unless the name overlaps it
-            plan.poke(scratch, &payload);
+            // data: header + 8 pattern bytes, planted in the scratch area
+            plan.poke(scratch, &event_header(14).unwrap());
             a(&mut plan, 0, ptr);
             a(&mut plan, 1, len);
             a(&mut plan, 2, scratch);
-            a(&mut plan, 3, 12);
+            a(&mut plan, 3, 14);
             a(&mut plan, 4, if g.chance(1, 10) { 1 + g.below(3) as u32 } else { 0 });
         }
         Op::EventData => {
             plan.poke(scratch, b"Evnt");
-            if ok && len >= 4 {
-                let h = bytes_header(len as usize - 4);
-                if h.len() == 4 {
+            if ok && g.chance(7, 8) {
+                if let Some(h) = event_header(len as usize) {
                     plan.poke(ptr, &h);
-                } else if len as usize >= h.len() {
-                    plan.poke(ptr, &bytes_header(len as usize - h.len()));
                 }
             }
             a(&mut plan, 0, scratch);
@@ -486,12 +565,10 @@ fn case(g: &mut Gen) -> Outcome {
             match op {
                 Op::BcallArgs => {
                     // args pair generated; a byte-array header is planted when it fits
-                    if ok && len >= 4 {
-                        let mut hl = 4;
-                        while bytes_header(len as usize - hl).len() != hl {
-                            hl = bytes_header(len as usize - hl).len();
+                    if ok {
+                        if let Some(h) = bytes_header_for_total(len as usize) {
+                            plan.poke(ptr, &h);
                         }
-                        plan.poke(ptr, &bytes_header(len as usize - hl));
                     }
                     a(&mut plan, 4, scratch + 8);
                     a(&mut plan, 5, 4);
@@ -518,12 +595,14 @@ fn case(g: &mut Gen) -> Outcome {
                         _ => 60_000 + g.index(12_000),
                     }
                     .min((pages * PAGE) as usize / 2);
-                    let mut hl = 4;
-                    while bytes_header(echo_len - hl).len() != hl {
-                        hl = bytes_header(echo_len - hl).len();
-                    }
+                    let header = loop {
+                        match bytes_header_for_total(echo_len) {
+                            Some(h) => break h,
+                            None => echo_len += 1,
+                        }
+                    };
                     let src_at = 16384u32.min((size - echo_len as u64) as u32);
-                    plan.poke(src_at, &bytes_header(echo_len - hl));
+                    plan.poke(src_at, &header);
                     a(&mut plan, 4, scratch + 8);
                     a(&mut plan, 5, 4);
                     a(&mut plan, 6, src_at);
@@ -556,13 +635,9 @@ fn case(g: &mut Gen) -> Outcome {
             }
         }
         Op::Ret => {
-            if ok && len >= 4 {
-                let mut hl = 4;
-                while bytes_header(len as usize - hl).len() != hl {
-                    hl = bytes_header(len as usize - hl).len();
-                }
-                if g.chance(7, 8) {
-                    plan.poke(ptr, &bytes_header(len as usize - hl));
+            if ok && g.chance(7, 8) {
+                if let Some(h) = bytes_header_for_total(len as usize) {
+                    plan.poke(ptr, &h);
                 }
             }
             a(&mut plan, 0, ptr);
@@ -672,8 +747,8 @@ fn case(g: &mut Gen) -> Outcome {
                         Expected::OtherFailure("event flags not allowed")
                     } else if n != b"Evnt" {
                         Expected::OtherFailure("no such event")
-                    } else if !valid_sbor(&d) {
-                        Expected::OtherFailure("event data is not SBOR")
+                    } else if scrypto_decode::<Evnt>(&d).is_err() {
+                        Expected::OtherFailure("event data does not match the event's schema")
                     } else if d.len() > 32 * 1024 {
                         Expected::OtherFailure("event above the size limit")
                     } else {
@@ -757,7 +832,10 @@ fn case(g: &mut Gen) -> Outcome {
             Expected::BufferNotFound(_) => g.label("expect:buffer_not_found"),
             Expected::OtherFailure(_) => g.label("expect:content_rejected"),
             Expected::NotAMemoryError => g.label("expect:huge_payload"),
-            _ => g.label("expect:success_with_payload"),
+            _ => {
+                g.label("expect:success_with_payload");
+                g.label(op.ok_label());
+            }
         }
 
         // ---- run ----------------------------------------------------------------------------------
